@@ -1443,6 +1443,10 @@ func (bh *blipHandler) handleProveAttachment(rq *blip.Message) error {
 	}
 
 	allowedAttachment := bh.allowedAttachment(digest)
+	if allowedAttachment.counter <= 0 {
+		// not an attachment of a revision in flight on this connection: the peer falls back to getAttachment
+		return ErrAttachmentNotFound
+	}
 	attachmentKey := MakeAttachmentKey(allowedAttachment.version, allowedAttachment.docID, digest)
 	attData, err := bh.collection.GetAttachment(bh.loggingCtx, attachmentKey)
 	if err != nil {
